@@ -245,7 +245,7 @@ func (f c9fetch) Set(eval.VariableKey, string, eval.Value) error { return nil }
 func (f c9fetch) Cached(eval.VariableKey, string) bool           { return true }
 
 func c09(r *rep.Run) {
-	r.SetBudget(150e9)
+	r.SetBudget(300e9)
 	if r.Thorough() {
 		r.SetBudget(1800e9)
 	}
